@@ -437,7 +437,12 @@ fn index_sweep(rep: &Report, me: Prop, root: &Path, max_n: usize, forest_extra: 
 fn shared_sweep(rep: &Report, me: Prop, root: &Path, tier: &str) {
     crate::c10::setup(root);
     let b = crate::c10::Bounds { max_t: 3, max_uses: if tier == "thorough" { 2 } else { 1 }, perm_t: 3 };
-    let cases = crate::c10::enumerate(&b);
+    let mut cases = crate::c10::enumerate(&b);
+    if tier != "thorough" {
+        // quick: the structurally different names only (the spelling variants are C10's own subject)
+        let keep = ["a", "ab", "a/c", "a/cd", "a/c/e", "b", "a-b", "x.txt", "caf\u{e9}"];
+        cases.retain(|(_, cfg)| cfg.targets.iter().all(|t| keep.contains(&t.path.as_str())));
+    }
     cases.par_iter().for_each(|(rank, cfg)| {
         let n = cfg.targets.len();
         let mut counted = false;
